@@ -80,6 +80,27 @@ def r20_1(ck: Check) -> None:
         ck.ok("R20.1", "LocalPeer.disconnect unregisters, closes and reports exactly the given peer", "other connections are untouched", hp[0].loc)
     else:
         ck.violated("R20.1", "LocalPeer.disconnect unregisters, closes and reports exactly the given peer", "%s" % [e.describe()[:100] for e in hp], d.fi.loc)
+    # the book-keeping is reached: between the start of disconnect and handle_peer_disconnected only the recorded steps (unregister, close)
+    # may fail under the same swallowing handler - whatever else fails there is swallowed TOGETHER WITH the book-keeping, and the peer
+    # stays filed as connected although its socket is gone (the next send to it raises in a manager step: R20.15's territory)
+    if len(hp) == 1:
+        before = [e for e in d.events if e.kind == "call" and not e.chain and e.seq < hp[0].seq and e.tries and set(e.tries) & set(hp[0].tries)]
+        allowed = {"unregister", "close"}
+        extra = []
+        for e in before:
+            nm_ = e.parts[0][2] if e.parts and e.parts[0][0] == "a" else None
+            if nm_ in allowed:
+                continue
+            r2, why2 = mr.event(e)
+            if r2:
+                extra.append((e, why2))
+        construct = "LocalPeer.disconnect: nothing that can fail stands between entry and the book-keeping, except unregister and close"
+        if extra:
+            for e, why2 in extra[:2]:
+                ck.violated("R20.1", construct, "%s may raise (%s): the failure is swallowed together with close() and handle_peer_disconnected — the "
+                            "connection stays filed as connected with a dead socket" % (show(e.term)[:80], why2[:80]), e.loc)
+        else:
+            ck.ok("R20.1", construct, "", hp[0].loc)
 
 
 ALLOWED_CALLERS = {
